@@ -317,6 +317,43 @@ func (w *world) evDead(i, j int) {
 	w.obs(i, w.dirtyOf(i))
 }
 
+// several neighbours of i are found dead by ONE sweep of checkDeadNeighbors (= consecutive NbrDead events)
+func (w *world) evDeadMulti(i int, js []int) {
+	if w.rt[i] == nil || len(js) == 0 {
+		return
+	}
+	victim := map[int]bool{}
+	for _, j := range js {
+		fmt.Fprintf(w.w, "ev dead %s %s\n", w.id(w.hash[i]), w.id(w.hash[j]))
+		w.evc++
+		victim[j] = true
+	}
+	w.unclean = true
+	now := time.Now()
+	changed := false
+	for _, nm := range w.rt[i].Vf18Neighbors().Vf18Names() {
+		ns := w.rt[i].Vf18Neighbors().Get(nm)
+		if k, ok := w.byHash[nm.Hash()]; ok && victim[k] {
+			ns.Vf18SetLastSeen(time.Time{})
+		} else {
+			ns.Vf18SetLastSeen(now)
+		}
+	}
+	w.rt[i].Vf18CheckDead()
+	for _, j := range js {
+		if w.nbr[i][j] {
+			changed = true
+		}
+		delete(w.nbr[i], j)
+	}
+	w.settle()
+	w.dirtyOf(i)
+	w.obs(i, "x")
+	if changed {
+		w.topoChanged()
+	}
+}
+
 func (w *world) evFetch(i, j int) {
 	fmt.Fprintf(w.w, "ev fetch %s %s\n", w.id(w.hash[i]), w.id(w.hash[j]))
 	w.evc++
@@ -514,7 +551,15 @@ func (w *world) converge(clean bool) {
 }
 
 func (w *world) fault(edges [][2]int) {
-	switch w.r.Intn(6) {
+	switch w.r.Intn(7) {
+	case 6: // a router loses all its links at once: one sweep removes every neighbour
+		i := w.r.Intn(w.n)
+		js := []int{}
+		for j := range w.nbr[i] {
+			js = append(js, j)
+		}
+		sort.Ints(js)
+		w.evDeadMulti(i, js)
 	case 0, 1: // link loss (both directions detect, at different times)
 		ps := w.pairs()
 		if len(ps) == 0 {
